@@ -2,13 +2,13 @@
 From PV Require Import Lib.Base.
 Open Scope N_scope.
 
-Definition request_table : list (str * str * str * str * str * bool * list str * bool * list str) := [
-  ((s2l "Server.parse_authn_request"), (s2l "AuthnRequest"), (s2l "authn_request"), (s2l "single_sign_on_service"), (s2l "authn_request"), true, [(s2l "AuthnRequest")], true, [(s2l "AuthnRequest")]);
-  ((s2l "Entity.parse_logout_request"), (s2l "LogoutRequest"), (s2l "logout_request"), (s2l "single_logout_service"), (s2l "logout_request"), true, [(s2l "LogoutRequest")], true, [(s2l "LogoutRequest")]);
-  ((s2l "Server.parse_attribute_query"), (s2l "AttributeQuery"), (s2l "attribute_query"), (s2l "attribute_service"), (s2l "attribute_query"), true, [(s2l "AttributeQuery")], true, [(s2l "AttributeQuery")]);
-  ((s2l "Server.parse_authn_query"), (s2l "AuthnQuery"), (s2l "authn_query"), (s2l "authn_query_service"), (s2l "authn_query"), true, [(s2l "AuthnQuery")], true, [(s2l "AuthnQuery")]);
-  ((s2l "Server.parse_authz_decision_query"), (s2l "AuthzDecisionQuery"), (s2l "authz_decision_query"), (s2l "authz_service"), (s2l "authz_decision_query"), true, [(s2l "AuthzDecisionQuery")], false, []);
-  ((s2l "Server.parse_assertion_id_request"), (s2l "AssertionIDRequest"), (s2l "assertion_id_request"), (s2l "assertion_id_request_service"), (s2l "assertion_id_request"), true, [(s2l "AssertionIDRequest")], true, [(s2l "AssertionIDRequest")]);
-  ((s2l "Server.parse_name_id_mapping_request"), (s2l "NameIDMappingRequest"), (s2l "name_id_mapping_request"), (s2l "name_id_mapping_service"), (s2l "name_id_mapping_request"), true, [(s2l "NameIDMappingRequest")], true, [(s2l "NameIDMappingRequest")]);
-  ((s2l "Entity.parse_manage_name_id_request"), (s2l "ManageNameIDRequest"), (s2l "manage_name_id_request"), (s2l "manage_name_id_service"), (s2l "manage_name_id_request"), true, [(s2l "ManageNameIDRequest")], true, [(s2l "ManageNameIDRequest")])
+Definition request_table : list (str * str * str * str * str * bool * list str * bool * list str * list str) := [
+  ((s2l "Server.parse_authn_request"), (s2l "AuthnRequest"), (s2l "authn_request"), (s2l "single_sign_on_service"), (s2l "authn_request"), true, [(s2l "AuthnRequest")], true, [(s2l "AuthnRequest")], []);
+  ((s2l "Entity.parse_logout_request"), (s2l "LogoutRequest"), (s2l "logout_request"), (s2l "single_logout_service"), (s2l "logout_request"), true, [(s2l "LogoutRequest")], true, [(s2l "LogoutRequest")], []);
+  ((s2l "Server.parse_attribute_query"), (s2l "AttributeQuery"), (s2l "attribute_query"), (s2l "attribute_service"), (s2l "attribute_query"), true, [(s2l "AttributeQuery")], true, [(s2l "AttributeQuery")], []);
+  ((s2l "Server.parse_authn_query"), (s2l "AuthnQuery"), (s2l "authn_query"), (s2l "authn_query_service"), (s2l "authn_query"), true, [(s2l "AuthnQuery")], true, [(s2l "AuthnQuery")], []);
+  ((s2l "Server.parse_authz_decision_query"), (s2l "AuthzDecisionQuery"), (s2l "authz_decision_query"), (s2l "authz_service"), (s2l "authz_decision_query"), true, [(s2l "AuthzDecisionQuery")], false, [], []);
+  ((s2l "Server.parse_assertion_id_request"), (s2l "AssertionIDRequest"), (s2l "assertion_id_request"), (s2l "assertion_id_request_service"), (s2l "assertion_id_request"), true, [(s2l "AssertionIDRequest")], true, [(s2l "AssertionIDRequest")], []);
+  ((s2l "Server.parse_name_id_mapping_request"), (s2l "NameIDMappingRequest"), (s2l "name_id_mapping_request"), (s2l "name_id_mapping_service"), (s2l "name_id_mapping_request"), true, [(s2l "NameIDMappingRequest")], true, [(s2l "NameIDMappingRequest")], []);
+  ((s2l "Entity.parse_manage_name_id_request"), (s2l "ManageNameIDRequest"), (s2l "manage_name_id_request"), (s2l "manage_name_id_service"), (s2l "manage_name_id_request"), true, [(s2l "ManageNameIDRequest")], true, [(s2l "ManageNameIDRequest")], [])
 ].
